@@ -28,7 +28,7 @@ from bounded import oracle as O
 
 ID = "C06"
 RULE = ("one case = one (dataset, scheme) pair.  'th' cases: partition + theorem only; 'alg' cases additionally run the 4 "
-        "ParCons configurations (default, bound 0, bound 2 + KwikSort, bound 0 + BioCo) with cplex absent and with the "
+        "ParCons configurations (default, bound 0, bound 2 / 3 + KwikSort, bound 0 + BioCo) with cplex absent and with the "
         "cplex stand-in, 9 heuristic / free-solver configurations and 3 CPLEX-API configurations through the stand-in. "
         "Datasets: every dataset n<=3, m<=2; 24 hand-shaped datasets (Condorcet cycle over integer-like string names "
         "next to a block of other string names) x 3 schemes; seeded generic datasets; seeded 'conflict' datasets (mostly strict rankings, "
@@ -48,7 +48,8 @@ ASSUMPTIONS = ["cplex stand-in: /verif/bounded/standin_cplex.py replaces the pro
                "delegation to the auxiliary algorithm is observed by wrapping compute_consensus_rankings on the "
                "auxiliary instance stored in ParCons._auxiliary_alg"]
 
-PARCONS = ["ParCons", "ParCons(bound=0)", "ParCons(bound=2,aux=KwikSort)", "ParCons(bound=0,aux=BioCo)"]
+PARCONS = ["ParCons", "ParCons(bound=0)", "ParCons(bound=2,aux=KwikSort)", "ParCons(bound=3,aux=KwikSort)",
+           "ParCons(bound=0,aux=BioCo)"]
 HEURISTICS = ["BioConsert", "BioConsert[Copeland,KwikSort]", "BioConsert[PickAPerm]", "BioCo", "KwikSortRandom", "Borda",
               "BordaBucketId", "Copeland", "PickAPerm"]
 STANDIN_EXACT = ["Cplex(optimize=True)", "Cplex(optimize=False)", "CplexOptim1"]   # the selector is C05's subject
@@ -149,9 +150,24 @@ def _mixed_block_cases():
                     yield {"rankings": d, "scheme": s, "namekind": "mixed", "algs": True, "pulp": True}
 
 
+def _two_cycle_cases():
+    """Two Condorcet cycles of different sizes, one ranked wholly before the other by every ranking: two non-trivial
+    components, so that an exact bound between their sizes delegates exactly one of them (first or last)."""
+    for a, b in ((4, 3), (3, 4), (3, 3), (4, 4)):
+        first = list(range(a))
+        second = list(range(a, a + b))
+        d = []
+        for sh in range(3):        # three rotations: each block is one Condorcet cycle (majorities 2 to 1 around it)
+            d.append([[x] for x in first[sh:] + first[:sh]] + [[x] for x in second[sh:] + second[:sh]])
+        for s in (D.unifying(), D.pseudo(), D.induced()):
+            yield {"rankings": d, "scheme": s, "namekind": "canon", "algs": True, "pulp": False}
+
+
 def gen_cases(tier, seed):
     quick = tier == "quick"
     for c in _mixed_block_cases():
+        yield c
+    for c in _two_cycle_cases():
         yield c
     nmax = 6 if quick else 7
     small = (D.PRESETS[:4] + [D.GENERIC_B, D.GENERIC_C, D.BOUNDARY[3], D.BOUNDARY[4]]) if quick else D.SCHEMES_ALL
